@@ -95,6 +95,17 @@ pub fn run(ctx: &Ctx, ev: &mut Ev) {
     if ctx.want("misc") && ev.ctx.shard == 0 {
         check(&l, ev, b"", true); check(&l, ev, b"   ", true);
         for n in [1usize, 18, 19, 20, 21, 22, 64, 10000] { check(&l, ev, &vec![b'a'; n], true); check(&l, ev, &vec![b' '; n], true); let mut v = vec![b' '; n]; v.extend_from_slice(b"utf-8"); check(&l, ev, &v, true); let mut v = b"utf-8".to_vec(); v.extend(vec![b' '; n]); check(&l, ev, &v, true); }
+        // paddings beyond every fixed-width counter a scanner might use (u8 is covered by the 5000-byte paddings above)
+        if !tiny {
+            let sizes: Vec<usize> = if th { vec![65_530, 65_536, 70_000, 1 << 20, (1usize << 31) + 10, (1usize << 32) + 10] } else { vec![65_530, 65_536, 70_000, 1 << 20] };
+            for n in sizes { for (lab, front) in [(&b"utf-8"[..], true), (b"cseucpkdfmtjapanese", false), (b"l1", true), (b"utf-9", false)] {
+                if n > (1 << 30) && lab != b"utf-8" { continue; }
+                let mut v: Vec<u8> = Vec::with_capacity(n + 32);
+                if front { v.resize(n, b' '); v.extend_from_slice(lab); v.push(b'\n'); } else { v.push(b'\t'); v.extend_from_slice(lab); v.resize(n + lab.len() + 1, b' '); }
+                check(&l, ev, &v, true);
+                if n <= (1 << 20) { let half = n / 2; let mut w = vec![b' '; half]; w.extend_from_slice(lab); w.resize(n + lab.len(), b'\x0c'); check(&l, ev, &w, true); }
+            } }
+        }
         check(&l, ev, b"unicode-1-1-utf-8", true); check(&l, ev, b"unicode-1-1-utf-88", true); check(&l, ev, b" unicode-1-1-utf-8 ", true); check(&l, ev, b"x-unicode20utf8\x00", true);
         for e in ALL.iter() { ev.case(); ev.api_calls += 1; ev.count("label-reference.name()-resolves"); if Encoding::for_label(e.name().as_bytes()) != Some(*e) { ev.violation("label-reference", "name-not-a-label", format!("for_label({:?}) does not resolve to that encoding", e.name())); } if reference(&l, e.name().as_bytes()) != Some(static_name(e)) { ev.violation("label-reference", "name-not-a-label", format!("name {:?} is not a label of itself in the reference table", e.name())); } }
     }
